@@ -5,7 +5,7 @@
    `plus_container`: equal, or with one additional EMPTY container group (created by
    open_group(name, create=True) before the duplicate test; not reachable through any read). *)
 From NixV Require Import Base.Prelude H5.Store Nix.Api Nix.Observe Proofs.MonadLemmas
-  Proofs.AtomicProofs Proofs.AtomicProofs2 Proofs.AtomicRefuted.
+  Proofs.AtomicProofs Proofs.AtomicProofs2.
 Open Scope N_scope.
 
 (* File.create_block / create_section, Block.create_group / create_data_array / create_tag /
@@ -48,13 +48,12 @@ Theorem c12_lookup : forall ph c k, readonly (api_lookup ph c k).
 Proof. exact readonly_api_lookup. Qed.
 Print Assumptions c12_lookup.
 
-(* the full statement is false for create_feature (faithful model; known finding) *)
-Theorem c12_create_feature_refuted :
-  exists s th dh l now s' e,
-    ro s = false /\ api_create_feature th dh l now s = (s', inr e) /\
-    walk false (sto s') <> walk false (sto s).
-Proof. exact feature_refuted. Qed.
-Print Assumptions c12_create_feature_refuted.
+(* BaseTag.create_feature: data of the wrong kind or from another block -> nothing changes (the
+   implementation removes the feature it had started; until the repair of 0aff958 it did not, and
+   this was a refuted statement with a witness) *)
+Theorem c12_create_feature : forall th dh l now, atomic same (api_create_feature th dh l now).
+Proof. exact atomic_api_create_feature. Qed.
+Print Assumptions c12_create_feature.
 
 (* ---- dimension calls (model: Pure/DimLink.v, tied by the dimension histories): unordered ticks, a
    link index of the wrong length or without exactly one -1, labels on a linked set dimension,
